@@ -144,7 +144,7 @@ def check_loader(ns, n, bs, mode):
                     out.append(V("loader:transform-bypassed", "batch was not passed through the transform", args=arg)); break
                 Xb, yb = item[1], item[2]
             else:
-                if not (isinstance(item, tuple) and len(item) == 2):
+                if not (isinstance(item, (tuple, list)) and len(item) == 2):
                     out.append(V("loader:item-form", "batch is not an (X, y) pair", args=arg, got=repr(item)[:100])); break
                 Xb, yb = item
             Xb = np.asarray(Xb); yb = np.asarray(yb)
